@@ -203,6 +203,142 @@ def ob(kinds, breaks, n_widths=2, n_indents=1, tier="quick"):
                 assumes=["HBox::pack is a stub that records its arguments and returns a box of arbitrary height/depth holding the list (what it computes is C15)"])
 
 
+# ---------------------------------------------------------------- inter-word glue (TeX.2021.1041-1044) and the space factor (TeX.2021.1034)
+TXT = ["boxworks-text", "common", "boxworks"]
+
+
+def py_xn_over_d(x, n, d):
+    """TeX.2021.107 on Python ints (quotient only; d > 0, 0 <= n <= 65536): truncation towards zero of x*n/d."""
+    neg = x < 0
+    q = (abs(x) * n) // d
+    return -q if neg else q
+
+
+tm.UF_IMPL["xnd"] = py_xn_over_d
+
+
+def _xnd_partial(x, n, d):
+    if n.is_const and d.is_const and d.val > 0:
+        return tm.tdiv(tm.mul(x, n), d)  # linear: constant multiplier and divisor
+    return None
+
+
+tm.UF_PARTIAL["xnd"] = _xnd_partial
+
+
+def xnd_lemmas(x, n, d):
+    q = tm.uf("xnd", x, n, d)
+    if q.is_const or not q.op.startswith("uf_"):
+        return []
+    # true of TeX.2021.107 for d >= n > 0 or any operands: sign follows x, and |q| <= |x| * n / d; here only what the
+    # callers need to rule out the overflow error: for 0 <= x the quotient is >= 0; for n <= d it does not exceed x
+    return [tm.implies(tm.ge(x, I(0)), tm.ge(q, I(0))), tm.implies(tm.and_(tm.ge(x, I(0)), tm.le(n, d)), tm.le(q, x)),
+            tm.implies(tm.eq(x, I(0)), tm.eq(q, I(0)))]
+
+
+def env_xn_over_d(ex, m, args, tys, st, fn, symargs):
+    """Scaled::xn_over_d is decided under C06 (= TeX.2021.107 for every operand); here it is summarised. The summary
+    returns Ok((quotient, remainder)) under the precondition of the callers (no overflow: see the bound)."""
+    x, n, d = ex.deref(args[0]).fields[0] if isinstance(args[0], Ref) else args[0].fields[0], args[1], args[2]
+    if x.is_const and n.is_const and d.is_const:
+        return NotImplemented
+    for l in xnd_lemmas(x, n, d):
+        st.pc.append(l)
+    q = tm.uf("xnd", x, n, d)
+    return [(st, Enum(0, {0: [Agg([scaled(q), scaled(ex.fresh_var("rem"))])]}, "Result"))]
+
+
+def build_space(sym, bind):
+    def iv(name, lo, hi):
+        if sym.consts is not None:
+            return I(sym.consts.get(name, 0))
+        if name in getattr(sym, "partial", {}):
+            sym.vars[name] = "i32"
+            return I(sym.partial[name])
+        v = tm.V(name)
+        sym.assumes.append(tm.and_(tm.le(I(lo), v), tm.le(v, I(hi))))
+        sym.vars[name] = "i32"
+        return v
+    W = 1 << 24
+    g = lambda p: (iv(p + "_w", -W, W), iv(p + "_st", 0, W), iv(p + "_sh", 0, W))
+    ss, xs, fs = g("space_skip"), g("xspace_skip"), g("font_space")
+    extra = iv("font_extra_space", -W, W)
+    sf = iv("space_factor", 1, 32767)
+    font = Agg([glue_val(*fs), scaled(extra), Opaque("lig_kern_program")])
+    params = Agg([Opaque("space_factor_codes"), glue_val(*ss), glue_val(*xs)])
+    me = Agg([Agg([font]), I(0), Agg([sf]), params])
+    lst = Ref(Cell(Agg([])))
+    return dict(ss=ss, xs=xs, fs=fs, extra=extra, sf=sf), [Ref(Cell(me)), lst]
+
+
+def tex_space_glue(a):
+    """TeX.2021.1041-1044 -> (width, stretch, shrink)."""
+    ss, xs, fs, extra, sf = a["ss"], a["xs"], a["fs"], a["extra"], a["sf"]
+    zero = lambda g: tm.and_(*[tm.eq(x, I(0)) for x in g])
+    base = [tm.ite(zero(ss), f, s_) for f, s_ in zip(fs, ss)]          # 1041/1042: \spaceskip if non-zero, else the font's space
+    # 1044: modify according to the space factor (applies to \spaceskip as well)
+    mod = [tm.ite(tm.ge(sf, I(2000)), tm.add(base[0], extra), base[0]), tm.uf("xnd", base[1], sf, I(1000)), tm.uf("xnd", base[2], I(1000), sf)]
+    use_x = tm.and_(tm.ge(sf, I(2000)), tm.not_(zero(xs)))               # 1043: \xspaceskip, unmodified
+    out = []
+    for k in range(3):
+        out.append(tm.ite(tm.eq(sf, I(1000)), base[k], tm.ite(use_x, xs[k], mod[k])))
+    return out
+
+
+def pre_space(a):
+    lem = []
+    zero = lambda g: tm.and_(*[tm.eq(x, I(0)) for x in g])
+    for base in (a["fs"], a["ss"], [tm.ite(zero(a["ss"]), f, s_) for f, s_ in zip(a["fs"], a["ss"])]):
+        lem += xnd_lemmas(base[1], a["sf"], I(1000)) + xnd_lemmas(base[2], I(1000), a["sf"])
+    return tm.and_(*lem) if lem else tm.TRUE
+
+
+def post_space(a, ret, st):
+    lst = st.roots[1]
+    while isinstance(lst, Ref):
+        lst = lst.cell.v
+    if len(lst.fields) != 1 or not _is(lst.fields[0], GLUE):
+        return tm.FALSE
+    gv = lst.fields[0].pay[GLUE][0].fields[0]
+    got = [gv.fields[0].fields[0], gv.fields[1].fields[0], gv.fields[3].fields[0]]
+    want = tex_space_glue(a)
+    return tm.and_(*[tm.eq(x, y) for x, y in zip(got, want)], tm.eq(gv.fields[2].tag, I(0)), tm.eq(gv.fields[4].tag, I(0)))
+
+
+SPACE = dict(engine="B", name="c12_add_space", crates=TXT, fn=("boxworks-text", "add_space", "TextPreprocessorImpl", "TextPreprocessor"), args=[], build_args=build_space,
+             pre=pre_space, post=post_space, post_state=True, prune=True, env_models=[(r"^(?:common::)?Scaled::xn_over_d$", env_xn_over_d)],
+             realise=[["space_factor", "space_skip", "xspace_skip", "font_"], ["space_factor"]],
+             witnesses=[("space factor 1000", lambda a: tm.eq(a["sf"], I(1000))), ("space factor 3000 with \\xspaceskip", lambda a: tm.and_(tm.eq(a["sf"], I(3000)), tm.gt(a["xs"][0], I(0)))),
+                        ("space factor 999 with \\spaceskip", lambda a: tm.and_(tm.eq(a["sf"], I(999)), tm.gt(a["ss"][1], I(0)))),
+                        ("space factor 2500, font glue", lambda a: tm.and_(tm.eq(a["sf"], I(2500)), *[tm.eq(x, I(0)) for x in a["ss"] + a["xs"]]))],
+             funcs=["boxworks_text::TextPreprocessorImpl::add_space (MIR; Glue::is_zero, SpaceFactor eq/default, Into from the dump; Scaled::xn_over_d summarised)"],
+             bound="every space factor in [1, 32767], every \\spaceskip, \\xspaceskip and font space/stretch/shrink/extra-space with |x| <= 2^24 (stretch, shrink >= 0), one font: the glue appended is TeX.2021.1041-1044's",
+             assumes=["Scaled::xn_over_d(x, n, d) is an uninterpreted function returning Ok (its equality with TeX.2021.107 is decided under C06; amounts <= 2^24 and factors <= 32767 keep it from overflowing)"])
+
+
+def build_adjust(sym, bind):
+    sf = sym.make("i32", "space_factor")
+    new = sym.make("i32", "sf_code")
+    return dict(sf=sf, new=new), [Ref(Cell(Agg([sf]))), I(65), Ref(Cell(Agg([Agg([new] * 256)])))]
+
+
+def post_adjust(a, ret, st):
+    cell = st.roots[0]
+    while isinstance(cell, Ref):
+        cell = cell.cell.v
+    got = cell.fields[0]
+    sf, s = a["sf"], a["new"]
+    want = tm.ite(tm.eq(s, I(1000)), I(1000), tm.ite(tm.lt(s, I(1000)), tm.ite(tm.gt(s, I(0)), s, sf), tm.ite(tm.lt(sf, I(1000)), I(1000), s)))
+    return tm.eq(got, want)
+
+
+ADJUST = dict(engine="B", name="c12_space_factor_adjust", crates=TXT, fn=("boxworks-text", "adjust", "SpaceFactor", None), args=[], build_args=build_adjust,
+              post=post_adjust, post_state=True,
+              witnesses=[("code 3000 after a capital (999)", lambda a: tm.and_(tm.eq(a["new"], I(3000)), tm.eq(a["sf"], I(999)))), ("code 0", lambda a: tm.eq(a["new"], I(0)))],
+              funcs=["boxworks_text::SpaceFactor::adjust (private; MIR)"],
+              bound="every current space factor and every space-factor code (i32), character 'A' with every table entry equal to the symbolic code: TeX.2021.1034")
+
+
 def legal_breaks(kinds):
     out = []
     for i, c in enumerate(kinds):
@@ -231,20 +367,20 @@ def family(n_items, tier):
 HAND = [ob("RGR", (3,)), ob("RGRGR", (1, 3, 5), n_widths=1, n_indents=0)]
 _seen = set()
 OBLIGATIONS = []
-for _o in HAND + family(3, "quick") + family(4, "quick") + family(5, "quick") + family(6, "thorough"):
+for _o in [SPACE, ADJUST] + HAND + family(3, "quick") + family(4, "quick") + family(5, "quick") + family(6, "thorough"):
     if _o["name"] not in _seen:
         _seen.add(_o["name"])
         OBLIGATIONS.append(_o)
 
 PROP = {
     "title": "Line boxes conserve the broken list and honour the geometry (post_line_break)",
-    "level_text": ("Decided for LineBreaker::post_line_break at driver level: for lists of a fixed shape and fixed breakpoints, with every amount and parameter symbolic, the packed lines contain exactly "
+    "level_text": ("Decided: (1) the inter-word glue kernels of the text preprocessor - add_space = TeX.2021.1041-1044 for every space factor and glue, SpaceFactor::adjust = TeX.2021.1034; (2) LineBreaker::post_line_break at driver level: for lists of a fixed shape and fixed breakpoints, with every amount and parameter symbolic, the packed lines contain exactly "
                    "the list items between the breaks (break glue dropped, break kern zeroed, break penalty kept, the discardable items after a break dropped), left skip iff non-zero, right skip always, "
                    "each line is packed to exactly its line width and shifted by its indent, and the inter-line penalties follow TeX.2021.890. "
-                   "NOT decided: TextPreprocessor (text -> list, space factors), discretionary breaks, the baseline-skip glue amounts, HBox::pack itself (C15), the breaker (C04)."),
+                   "NOT decided: add_word (characters, ligatures, kerns: font and string bound), discretionary breaks, the baseline-skip glue amounts, HBox::pack itself (C15), the breaker (C04)."),
     "explanation": "post_line_break is executed from its generic MIR with HBox::pack replaced by a recording stub; the post-condition is the content/geometry part of the property over the recorded pack calls and the resulting vertical list.",
     "outside": [
-        "TextPreprocessor::add_text / add_word / add_space (space-factor rules, \\\\spaceskip, \\\\xspaceskip): string/font bound, NOT decided",
+        "TextPreprocessor::add_text / add_word (characters, ligatures, kerns, '-' discretionaries; that the list spells the words): string/font bound, NOT decided",
         "discretionary breaks (pre/post-break material, replace_count, broken_penalty), math nodes",
         "the amounts of the baseline-skip glue between lines (the code carries TODOs there); only its presence is checked",
         "lists longer than 5 items / more than 3 lines",
